@@ -165,6 +165,84 @@ func (g *G) Mutator() string {
 	}
 }
 
+// BoundaryPair returns (setup, before, after): `before` and `after` are the SAME kind of mutator on
+// the SAME target, meant to be the last journaled op before a Snapshot() and the first one after it,
+// with nothing journaled in between (journal-coalescing and "undo assumes a constant" mistakes only
+// show there). Half of the pairs are idempotent-looking repeats (Suicide twice, CreateAccount twice,
+// AddAddressToAccessList twice, SetCode with the same code, the same slot value ...). `setup` makes the
+// target exist where the op needs it.
+func (g *G) BoundaryPair() (setup []string, before, after string) {
+	r := g.r
+	a := g.addr()
+	same := r.Bool()
+	pickTwo := func(f func() string) (string, string) {
+		x := f()
+		if same {
+			return x, x
+		}
+		return x, f()
+	}
+	switch r.Intn(12) {
+	case 0: // refund
+		op := func() string {
+			if r.Chance(1, 4) {
+				return "subrefund 1"
+			}
+			return fmt.Sprintf("addrefund %d", 1+r.Intn(9))
+		}
+		before, after = pickTwo(op)
+		setup = []string{"addrefund 20"}
+	case 1: // suicide twice
+		setup = []string{fmt.Sprintf("setnonce %s 1", a)}
+		before, after = "suicide "+a, "suicide "+a
+	case 2: // nonce
+		op := func() string {
+			if r.Bool() {
+				return "incnonce " + a
+			}
+			return fmt.Sprintf("setnonce %s %d", a, g.u.nonces[r.Intn(len(g.u.nonces))])
+		}
+		before, after = pickTwo(op)
+	case 3: // code
+		op := func() string {
+			c := g.u.codes[r.Intn(len(g.u.codes))]
+			return fmt.Sprintf("setcode %s %s %s", a, hx.Hex(c), hx.Hex(keccak(c)))
+		}
+		before, after = pickTwo(op)
+	case 4, 5: // storage slot
+		k := g.pick(g.u.keys)
+		op := func() string { return fmt.Sprintf("setdata %s %s %s", a, k, g.pick(g.u.vals)) }
+		before, after = pickTwo(op)
+	case 6: // access list address
+		before, after = "aladdr "+a, "aladdr "+a
+	case 7: // access list slot
+		op := func() string { return fmt.Sprintf("alslot %s %s", a, g.pick(g.u.hashes)) }
+		before, after = pickTwo(op)
+	case 8: // transient
+		k := g.pick(g.u.hashes)
+		op := func() string { return fmt.Sprintf("tset %s %s %s", a, k, g.pick(g.u.hashes)) }
+		before, after = pickTwo(op)
+	case 9: // log
+		op := func() string { return fmt.Sprintf("addlog %s - %s", a, hx.Hex(r.Bytes(1+r.Intn(2)))) }
+		before, after = pickTwo(op)
+	case 10: // create twice
+		before, after = "create "+a, "create "+a
+	default: // balance of the same address
+		op := func() string {
+			switch r.Intn(3) {
+			case 0:
+				return fmt.Sprintf("addbal %s %s", a, g.amount())
+			case 1:
+				return fmt.Sprintf("setbal %s %s", a, g.amount())
+			default:
+				return fmt.Sprintf("addft %s %s %s", a, g.pick(g.u.ftkeys), g.smallAmount())
+			}
+		}
+		before, after = pickTwo(op)
+	}
+	return
+}
+
 // Query returns one reader line.
 func (g *G) Query() string {
 	r := g.r
